@@ -366,6 +366,18 @@ def big_family(out, clauses):
     out.add("traces_validated_against_impl", n)
 
 
+def exh_family(out, clauses):
+    """Exhaustive small scope (one representative per relabelling class, <= 3 symbols, lengths up
+    to 6 quick / 7 thorough for Myers, one less for Patience and LCS) as hook traces."""
+    trace = drive(out, "exh")
+    n = sum(1 for line in open(trace) if '"ev":"start"' in line)
+    out.add("evaluations", n)
+    out.add("exhaustive_small_scope_cases", n)
+    judge(out, "exh", trace, "TraceHook", clauses)
+    out.add("traces_validated_against_impl", n)
+    trace.unlink()
+
+
 def builder_family(out, clauses):
     """Histories of builder calls (TextDiffConfig / UnifiedDiff setters in any order), validated
     event by event against spec/abstract/Builder.tla."""
@@ -442,6 +454,7 @@ def c01(out):
     out.add("states", out.cov.get("trace_states", 0))
     out.add("transitions", out.cov.get("trace_lines_validated", 0))
     big_family(out, C01_CLAUSES)
+    exh_family(out, C01_CLAUSES)
     p2(out, "MCAlgs.tla", alg_cfgs(out, ["myers", "lcs", "patience"]))
     p3_alg(out, ["myers", "lcs", "patience"], C01_CLAUSES, faults=False)
     finish_counts(out)
@@ -594,6 +607,7 @@ def c03(out):
     judge(out, "c01", trace, "TraceHook", {"minimal"})
     out.add("traces_validated_against_impl", n)
     big_family(out, {"minimal"})
+    exh_family(out, {"minimal"})
     p2(out, "MCAlgs.tla", alg_cfgs(out, ["myers", "lcs"]))
     p2(out, "MCCompact.tla", ["MCCompact"])
     p3_alg(out, ["myers", "lcs"], {"minimal"}, faults=False)
@@ -622,6 +636,7 @@ def c15(out):
     judge(out, "c01", trace, "TraceHook", {"anchors"})
     out.add("traces_validated_against_impl", n)
     big_family(out, {"anchors"})
+    exh_family(out, {"anchors"})
     p2(out, "MCAlgs.tla", alg_cfgs(out, ["patience"]))
     p3_alg(out, ["patience"], {"anchors"}, faults=False)
     finish_counts(out)
@@ -701,7 +716,7 @@ def c08(out):
 
 
 C10_CLAUSES = {"script", "carried", "recon", "panic", "noreturn", "after_finish", "finish_twice", "no_finish",
-               "ret_error", "totals"}
+               "ret_error", "totals", "carried_exact", "run_split"}
 
 
 @prop("C10")
@@ -1018,7 +1033,7 @@ def c05(out):
         by_case.setdefault(c, set()).update(cl)
     viol, known = [], []
     for c, cl in sorted(by_case.items()):
-        rel = cl & {"patch", "patch_rep", "writer_display", "writer_hunks", "panic"}
+        rel = cl & {"patch", "patch_rep", "writer_display", "writer_hunks", "writer_sink", "panic"}
         if "patch" in rel and "patch_rep" not in rel:
             known.append(c)
             rel.discard("patch")
@@ -1038,7 +1053,7 @@ def c05(out):
     sfx = "_t" if out.tier == "thorough" else ""
     p2(out, "MCUdiff.tla", ["MCUdiff" + sfx, "MCUdiffRepair" + sfx], coverage=False)
     expect_violation(out, "MCUdiff.tla", "MCUdiffWitness", "AlwaysAccepted")
-    p3_fn(out, "MCUdiff.tla", "MCUdiffDump", {"patch", "patch_rep", "writer_display", "writer_hunks", "panic"},
+    p3_fn(out, "MCUdiff.tla", "MCUdiffDump", {"patch", "patch_rep", "writer_display", "writer_hunks", "writer_sink", "panic"},
           known_pair=("patch", "patch_rep"))
     builder_family(out, {"builder_render"})
     finish_counts(out)
